@@ -152,7 +152,7 @@ async def process_peering_event(
             await conflicts_found.turn_to(False)
 
     if veriftrace.enabled:
-        veriftrace.emit('peer.eval', identity=identity, rv=meta.get('resourceVersion'),
+        veriftrace.emit('peer.eval', identity=identity, ns=namespace, rv=meta.get('resourceVersion'),
                         dead=[peer.identity for peer in dead_peers], prio=[peer.identity for peer in prio_peers],
                         same=[peer.identity for peer in same_peers],
                         paused=None if conflicts_found is None else conflicts_found.is_on())
